@@ -136,3 +136,17 @@ Definition pm_scale_wr (s : R) (p : pm_params) : pm_params := {|
   p_lambda_s := p_lambda_s p; p_lambda_i := p_lambda_i p; p_omega_s0 := p_omega_s0 p; p_omega_i0 := p_omega_i0 p;
   p_n_s0 := p_n_s0 p; p_n_i0 := p_n_i0 p; p_n_p0 := p_n_p0 p; p_ng_s := p_ng_s p; p_ng_i := p_ng_i p; p_ng_p := p_ng_p p
 |}.
+
+(* both down-converted group indices set to g (degenerate type-0/1 setups) *)
+Definition pm_set_ng (g : R) (p : pm_params) : pm_params := {|
+  p_L := p_L p; p_phi_s := p_phi_s p; p_phi_i := p_phi_i p; p_theta_s := p_theta_s p; p_theta_i := p_theta_i p;
+  p_theta_s_e := p_theta_s_e p; p_theta_i_e := p_theta_i_e p;
+  p_wsx := p_wsx p; p_wsy := p_wsy p; p_wix := p_wix p; p_wiy := p_wiy p; p_wpx := p_wpx p; p_wpy := p_wpy p;
+  p_z0s := p_z0s p; p_z0i := p_z0i p; p_dirz_s := p_dirz_s p; p_dirz_i := p_dirz_i p;
+  p_omega_s := p_omega_s p; p_omega_i := p_omega_i p; p_n_p := p_n_p p; p_n_s := p_n_s p; p_n_i := p_n_i p;
+  p_rho := p_rho p; p_k_eff := p_k_eff p; p_apod := p_apod p;
+  p_pp_on := p_pp_on p; p_lambda_p := p_lambda_p p; p_omega_p0 := p_omega_p0 p; p_bw := p_bw p;
+  p_power := p_power p; p_deff := p_deff p; p_thr := p_thr p;
+  p_lambda_s := p_lambda_s p; p_lambda_i := p_lambda_i p; p_omega_s0 := p_omega_s0 p; p_omega_i0 := p_omega_i0 p;
+  p_n_s0 := p_n_s0 p; p_n_i0 := p_n_i0 p; p_n_p0 := p_n_p0 p; p_ng_s := g; p_ng_i := g; p_ng_p := p_ng_p p
+|}.
